@@ -580,9 +580,10 @@ func c05Confusable(c *core.Case) {
 		return
 	}
 	sa, sb := ref.Spatials(A), ref.Spatials(B)
-	probe := []ref.ID{descendant(r, A[r.Intn(2)], 35, 35), descendant(r, B[r.Intn(2)], 35, 35)}
+	// one probe voxel that lies in a voxel of exactly one of the two lists (A[0] and B[0] differ in y), so that the
+	// expected answers for A and B differ
+	probe := []ref.ID{descendant(r, [][]ref.ID{A, B}[r.Intn(2)][0], 35, 35)}
 	probe[0].F = clampI(probe[0].F, -pow2(34), pow2(34)-1)
-	probe[1].F = clampI(probe[1].F, -pow2(34), pow2(34)-1)
 	sp := ref.Spatials(probe)
 	want := func(l []ref.ID) bool {
 		for _, x := range l {
@@ -610,6 +611,11 @@ func c05Confusable(c *core.Case) {
 			c.Fail("overlap-spatial-array-history", nil, "CheckSpatialIdsArrayOverlap(%v,%v) as call %d of the sequence A,B,A with A=%v B=%v: (%v,%v), want %v", l, sp, k+1, sa, sb, g, err, want(ids))
 			return
 		}
+	}
+	// the same sequence with the confusable lists as SECOND argument (separately: a call with another first list in
+	// between would replace whatever the library remembers about the previous first list)
+	for k, l := range [][]string{sa, sb, sa} {
+		ids := [][]ref.ID{A, B, A}[k]
 		g2, err2 := detector.CheckSpatialIdsArrayOverlap(sp, l)
 		c.Call()
 		if err2 != nil || g2 != want(ids) {
